@@ -34,5 +34,14 @@ TEXT = {
                 "are only observed when the selected rule gets far enough to make them",
         "technique": "runtime monitoring: exhaustive execution of the dispatch lattice with a resolver tap (AmbiguousLookupError/NotFoundLookupError events)",
     },
+    "C05": {
+        "level": "Held on the executions observed: generated trees with true declarations through every combinator, outputs of "
+                 "lanczos/arnoldi/eig/svd/matrix functions, and every operator constructed on the way (creation tap), each reported "
+                 "annotation tested numerically on the represented matrix; declaration wrappers tested for same action and an "
+                 "untouched argument on operators of every kind. Sampling, not proof.",
+        "note": _NOTE + "; Krylov routine outputs are judged in double precision with well-conditioned inputs; lazily iterative operators "
+                "(CG/GMRES inverses, Krylov matrix functions) are excluded from the creation-tap densification",
+        "technique": "runtime monitoring: invariant at a hook (operator-creation tap) + numeric truth oracle on annotations with sub-expression blame",
+    },
 }
 NOT_APPLICABLE = {}
